@@ -46,7 +46,9 @@ def judge(ops, out):
 
 
 def signature_of(ops, res):
-    """one report per kind of failure (not a known-findings key: nothing is suppressed)"""
+    """kind of failure, for labelling only. Deliberately NOT passed to seq_correspondence: it
+    de-duplicates by signature only after shrinking, so thousands of same-kind failures would
+    each be shrunk; without it at most three failures are shrunk and reported."""
     if res["crash"]:
         m = re.search(r"Assertion `([^']*)'|ERROR: AddressSanitizer: (\S+)|runtime error: ([^\n]{0,60})",
                       res["crash"])
@@ -244,6 +246,13 @@ def gen_cases(ctx):
             ops += ["alloc", "cnt"]
         ops += ["free 0", "cnt"] * 3 + ["alloc", "cnt"] * 4
         cases.append(ops)
+    # data buffers really larger than 4 GiB (virtual memory only: large blocks are touched at their
+    # edges): block offsets beyond 2^32 must not be truncated either
+    big = 1 << 33
+    cases.append(["init 1 67108864", "memlimit %d" % big, "ensure 69", "cnt"] + ["alloc"] * 69 +
+                 ["cnt", "free 68", "free 0", "free 30", "alloc", "alloc", "cnt", "dump"])
+    cases.append(["memlimit %d" % big, "init 68 67108864", "cnt"] + ["alloc"] * 68 +
+                 ["cnt", "free 67", "free 0", "alloc", "cnt", "dump"])
     # (ii) random long histories
     nrand = 400 if quick else 6000
     for _ in range(nrand):
@@ -293,7 +302,8 @@ def main(ctx):
         "ensure cap+1, ensure cap+2} from init capacity 2 and 3 (and a 4-letter alphabet from capacity 1; a 7-letter "
         "alphabet with flag/maxdelta at length 5/7), counters and the whole pointer ring compared after every "
         "operation; init over capacities 0..9,16,31 x 9 block sizes with capacity+1 allocations; block_size x "
-        "capacity products around k*2^32 (init, ensure_space, automatic growth); seeded random long histories "
+        "capacity products around k*2^32 (init, ensure_space, automatic growth); two histories with a data buffer "
+        "really larger than 4 GiB, every block allocated; seeded random long histories "
         "(fill/drain/edge phases, flag, maxdelta, memlimit); separate malformed stream (double free, foreign "
         "index, free on empty, zero sizes, >32-bit arguments). distinct = distinct op lists; non-trivial = at "
         "least two successful allocations and a free or a growth in the implementation's answers")
@@ -306,8 +316,7 @@ def main(ctx):
         ctx.broken.append("harness-build: " + str(e)[:500])
         return
     cases, n_exh = gen_cases(ctx)
-    vlib.seq_correspondence(ctx, hcmd, dcmd, cases, nontrivial=nontrivial, keep_prefix=1, judge=judge,
-                            signature_of=signature_of)
+    vlib.seq_correspondence(ctx, hcmd, dcmd, cases, nontrivial=nontrivial, keep_prefix=1, judge=judge)
     ctx.cov["exhaustive"] = True
     ctx.cov["exhaustive_cases"] = n_exh
     ctx.cov["explanation"] = ("exhaustive=true refers to the bounded operation-sequence space described in rule "
